@@ -255,3 +255,7 @@ impl From<InvalidCss> for BadOp {
         Self::Invalid(value)
     }
 }
+
+#[cfg(kani)]
+#[path = "/verif/kani/operator.rs"]
+mod kani_verif;
